@@ -97,5 +97,6 @@ type Result struct {
 	Inconclusive string
 	Stats        map[string]int64
 	Fingerprints []string
-	Sample       any `json:",omitempty"`
+	Sample       any    `json:",omitempty"`
+	Dump         string `json:",omitempty"` // streamer + pool state when the case did not become quiescent
 }
